@@ -83,7 +83,7 @@ def gen_shape(rng, tier):
 def gen_values(rng, shape):
     """integer-valued array (int64) with the structures the property is about"""
     nprng = np.random.default_rng(rng.getrandbits(32))
-    kind = rng.choice(['few'] * 6 + ['blobs'] * 6 + ['sparse'] * 2 + ['wide'] * 2 + ['ramp'] * 2 + ['plateau'] * 4 + ['edge'] * 4 + ['negative'] * 3 + ['constant', 'zero'])
+    kind = rng.choice(['few'] * 6 + ['blobs'] * 6 + ['sparse'] * 2 + ['wide'] * 2 + ['ramp'] * 2 + ['plateau'] * 4 + ['edge'] * 4 + ['negative'] * 3 + ['huge'] * 3 + ['constant', 'zero'])
     n = int(np.prod(shape))
     if kind == 'few':
         k = rng.choice([2, 3, 4, 6])
@@ -107,6 +107,11 @@ def gen_values(rng, shape):
         a = np.full(shape, rng.choice([1, 5, 200]), dtype=np.int64)
     elif kind == 'zero':
         a = np.zeros(shape, dtype=np.int64)
+    elif kind == 'huge':   # large dynamic range: distinct maxima that differ by a few parts in 10^6 .. 10^9
+        base = rng.choice([10 ** 6, 3 * 10 ** 7, 2 * 10 ** 9])
+        a = nprng.integers(0, 3, size=shape) * (base // 1000)
+        for _ in range(rng.randint(2, 8)):
+            a[tuple(rng.randrange(s) for s in shape)] = base + rng.randint(0, 4)
     elif kind == 'wide':
         a = nprng.integers(0, 60000, size=shape)
     elif kind == 'ramp':
@@ -450,7 +455,8 @@ def gen_wc(rng, tier):
     if rng.random() < 0.04:
         sep = 0 if rng.random() < 0.5 else tuple([0] + [2] * (nd - 1))
     r = rng.random()
-    inten = None if r < 0.3 else [rng.choice([1, 1, 2, 3]) for _ in range(n)] if r < 0.8 else [rng.randint(0, 1000) for _ in range(n)]
+    inten = None if r < 0.3 else [rng.choice([1, 1, 2, 3]) for _ in range(n)] if r < 0.7 else [rng.randint(0, 1000) for _ in range(n)] if r < 0.85 else \
+        [rng.choice([10 ** 6, 10 ** 9]) + rng.randint(0, 3) for _ in range(n)]     # nearly (not exactly) equal brightness
     return dict(pos=pos, separation=sep, intensity=inten, frame=rng.random() < 0.2)
 
 
